@@ -912,7 +912,7 @@ impl X {
                     Some(WinRef::Named) => json!({"name": "w"}),
                     Some(WinRef::Inline(w)) => json!({"win": self.window(w)}),
                 };
-                json!({"e": self.ej(&it.e), "over": over, "alias": it.alias.map(|a| json!(ITEM_ALIASES[a as usize % 4])).unwrap_or(J::Null)})
+                json!({"e": self.ej(&it.e), "over": over, "alias": it.alias.map(|a| json!(item_alias(a))).unwrap_or(J::Null)})
             })
             .collect();
         let hints: Vec<J> = if self.d == Dialect::Mysql && !s.from.is_empty() {
